@@ -16,6 +16,27 @@ CHECKS = {
              'transcription; int<->bytes conversion by Python trusted',
         design='5/C01'),
 }
+CHECKS.update({
+    'C04': dict(
+        technique='TLC model checking of Pairing.tla (mechanism Step == property stated on the history, all sequences '
+                  'over 2 threads x every code kind x 4 qualifiers); TLC-exported behaviours replayed into TracesParser; '
+                  'recorded executions of random streams validated against the spec by TLC',
+        text='Exhaustive inside the bounds for the design (every event sequence up to depth 4-5), and every explored '
+             'transition becomes an implementation check: emission timing and exact window after every fed event, in both '
+             'binding directions.',
+        note='bounds: depth 4 (quick) / 5 (thorough) exhaustive, depth 10 simulated, random streams <= 60 events over 3 '
+             'threads; event identity = object identity; stray ENDs in windows / swallowed fragments tolerated either way',
+        design='5/C04'),
+    'C08': dict(
+        technique='TLC model checking of the kernel chunking + reassembly (Chunks_MC over Pairing.tla, every length '
+                  '0..184 x header kind x gap records, negative control); recorded executions validated against '
+                  'Pairing!Step by TLC in full mode (fields, assignments)',
+        text='Reassembly is checked exhaustively on the spec for every text length; the code is bound by validating, in '
+             'TLC, executions for every path-taking decoder x number of lookups x boundary lengths x gap records.',
+        note='chunk encoders follow XNU (trusted); malformed chunk sequences are wildcards; no trace-domain record '
+             'between chunks of one string on one thread',
+        design='5/C08'),
+})
 PENDING = {}
 
 ALL = ['C%02d' % i for i in range(1, 21)]
